@@ -71,7 +71,7 @@ def corpus(rng, n):
             order = T.ORDER[ver] if am else T.MANDATORY[ver]
             for _ in range(max(2, n // 40)):
                 tgt = {q: rng.choice(T.VALUES[ver][q]) for q in T.ORDER[ver]}
-                ans = DLG.script_for(order, tgt, rng, noise=0.2, case=rng.choice(("asis", "lower", "upper", "mixed")))
+                ans = DLG.script_for(order, tgt, rng, noise=0.2, case=rng.choice(("asis", "lower", "upper", "mixed")), ver=ver)
                 if rng.random() < 0.3:
                     ans = ans[:rng.randrange(len(ans) + 1)]
                 if rng.random() < 0.2:
